@@ -196,6 +196,22 @@ def sc_skreg_unfittable(d, n, normal, missing=NAN):
     d.witness(0 < len(lab) < n, "some_unlabeled")
 
 
+def sc_nic_int(d, n):
+    """count targets handed over as an INTEGER array with the sentinel -1: the regressor stores exactly the labeled rows"""
+    from skactiveml.regressor import NICKernelRegressor
+    miss = [d.choose(f"missing{i}", [0, 1]) for i in range(n)]
+    lab = [i for i in range(n) if not miss[i]]
+    xs = [d.fl(f"x{i}") for i in range(n)]
+    X = d.arr([[x] for x in xs], shape=(n, 1))
+    vals = [-1 if miss[i] else 3 + 2 * i for i in range(n)]
+    y = d.arr(vals, dtype=int)
+    reg = NICKernelRegressor(missing_label=-1).fit(X, y)
+    d.prove(d.eq_arr(reg.X_, d.arr([[xs[i]] for i in lab], shape=(len(lab), 1))), "stores_exactly_labeled_rows")
+    d.prove([float(v) for v in d.flat(reg.y_)] == [float(vals[i]) for i in lab], "stores_exactly_labeled_targets",
+            info=dict(stored=[float(v) for v in d.flat(reg.y_)]))
+    d.witness(0 < len(lab) < n, "some_unlabeled")
+
+
 UNITS = ["skactiveml.classifier._wrapper:SklearnClassifier._fit", "skactiveml.regressor._wrapper:SklearnRegressor._fit",
          "skactiveml.classifier._parzen_window_classifier:ParzenWindowClassifier.fit",
          "skactiveml.classifier._parzen_window_classifier:ParzenWindowClassifier.predict_freq",
@@ -234,6 +250,9 @@ def _refit(d, kind, n1, n2):
     return sc_refit(d, kind, n1, n2)
 
 
+HARNESSES.append(dual_harness(
+    "nic_integer_targets", sc_nic_int, lambda tier: [dict(n=n) for n in _ns(tier)],
+    UNITS[4:5] + UNITS[7:9], required_witnesses=("some_unlabeled",)))
 HARNESSES.append(dual_harness(
     "sklearn_regressor_unfittable", sc_skreg_unfittable,
     lambda tier: [dict(n=n, normal=nm, missing=ms) for n in _ns(tier) for nm in (False, True) for ms in (NAN, -1.0)],
